@@ -1750,7 +1750,7 @@ func c05Gen(r *Run) *c05Case {
 	for i := 0; i < n; i++ {
 		c.Versions = append(c.Versions, r.Rng.Intn(3))
 	}
-	if r.Rng.Intn(4) == 0 {
+	if r.Rng.Intn(3) == 0 {
 		c.Small = 1 + r.Rng.Intn(n)
 	}
 	closed := map[int]bool{}
@@ -1865,6 +1865,10 @@ func c05Gen(r *Run) *c05Case {
 				mf = 1
 			}
 			c.Cmds = append(c.Cmds, fmt.Sprintf("fin id=%d mf=%d", id, mf))
+			if r.Rng.Intn(3) == 0 {
+				// a sign request right after a finalisation
+				c.Cmds = append(c.Cmds, "sign sf=- af=- st=none dropnonce=0 prev=full reopen=0")
+			}
 			if id == curID && mf == 0 {
 				curID = 0
 				if c.Small != 0 {
